@@ -485,3 +485,46 @@ Definition call_top (f : pyfunc) (gs_outer_first : list built) (forward : bool) 
           end
       end
   end.
+
+(* ---- awaiting --------------------------------------------------------------------------------------- *)
+(* The wrapper handed to wraps may be a plain def / lambda passing its arguments on, or an
+   async def awaiting it.  Count the coroutine LAYERS around a result: calling an async
+   function gives one layer around what its body returns; "await x" strips one layer and
+   is a TypeError on a plain value.  The generated body is "return await _call(...)" when
+   the wrapped function is async (fb.is_async), else "return _call(...)". *)
+Inductive wkind := WSync | WAsync.
+
+(* what calling the wrapper gives, if what it calls has [L] layers *)
+Definition wrapper_layers (k : wkind) (L : nat) : option nat :=
+  match k with
+  | WSync => Some L                                   (* returns what the function below returned *)
+  | WAsync => match L with 0 => None | S l => Some (S l) end   (* async def: return await below(..) *)
+  end.
+
+(* what calling the built function gives, if its wrapper call has [W] layers *)
+Definition built_layers (is_async : bool) (W : option nat) : option nat :=
+  match W with
+  | None => None
+  | Some w => if is_async then match w with 0 => None | S w' => Some (S w') end else Some w
+  end.
+
+Fixpoint stack_layers (L : nat) (gs : list built) (kinds : list wkind) : option nat :=
+  match gs, kinds with
+  | [], _ => Some L
+  | g :: gs', k :: ks =>
+      match built_layers (f_async (b_func g)) (wrapper_layers k L) with
+      | Some L' => stack_layers L' gs' ks
+      | None => None
+      end
+  | _ :: _, [] => None
+  end.
+
+Definition func_layers (f : pyfunc) : nat := if f_async f then 1 else 0.
+
+(* how many awaits MORE than the original needs until the outermost call's value appears
+   (99: an await on something that is no awaitable) *)
+Definition extra_awaits (f : pyfunc) (gs_inner_first : list built) (kinds : list wkind) : nat :=
+  match stack_layers (func_layers f) gs_inner_first kinds with
+  | Some L => L - func_layers f
+  | None => 99
+  end.
